@@ -137,12 +137,11 @@ class Maildir(_Maildir):
         """
         subpath = self._lookup(key)
         subdir, name = self._split(subpath)
-        new_subdir = msg.get_subdir()
         new_name = key + self.colon + msg.get_info()
-        if subdir != new_subdir:
-            raise ValueError('Message subdir may not be updated')
-        elif name != new_name:
-            new_subpath = os.path.join(msg.get_subdir(), new_name)
+        if name != new_name:
+            # the file stays in the subdir it is in now: another session may
+            # have claimed it from new/ to cur/ since ``msg`` was read
+            new_subpath = os.path.join(subdir, new_name)
             old_path = self._join(subpath)
             new_path = self._join(new_subpath)
             os.rename(old_path, new_path)
